@@ -1,7 +1,7 @@
 (* Dispatch.v -- request decoder / response encoder for the extracted model.
    One request = one S-expression (op arg ...); one response = one S-expression. *)
 From Coq Require Import String.
-From Torf Require Import Base Sexp Bencode PyVal Geometry Stream History Convert Validate Export MonList Filesize Regex UrlQuote Magnet Attr Tree.
+From Torf Require Import Base Sexp Bencode PyVal Geometry Stream History Convert Validate Export MonList Filesize Regex UrlQuote Magnet Attr Tree Reuse.
 Open Scope Z_scope.
 
 Definition getFile (s : sexp) : option file := getPair getZ getZ s.
@@ -539,6 +539,66 @@ Definition handle_tree (op : list N) (args : list sexp) : option sexp :=
     | _ => None end
   else None.
 
+(* ---- reuse (C18) ---- *)
+Definition getErrKind (s : sexp) : option exn :=
+  match s with
+  | A a => if atom_is "read" a then Some (DRead 2) else if atom_is "bdecode" a then Some DBdecode
+           else if atom_is "metainfo" a then Some DMetainfo else None
+  | _ => None end.
+
+Definition getCand (s : sexp) : option candidate :=
+  match s with
+  | L [n; fs; l; hs] =>
+      match getZ n, getFiles fs, getZ l, getList getB hs with
+      | Some n, Some fs, Some l, Some hs => Some {| c_name := n; c_files := fs; c_plen := l; c_hashes := hs |}
+      | _, _, _, _ => None end
+  | _ => None end.
+
+Definition getItem (s : sexp) : option ritem :=
+  match s with
+  | L [A tag; x] => if atom_is "err" tag then option_map IErr (getErrKind x)
+                    else if atom_is "cand" tag then option_map ICand (getCand x) else None
+  | _ => None end.
+
+Definition getCb (s : sexp) : option cbmode :=
+  match s with
+  | A a => if atom_is "none" a then Some CbNone else if atom_is "passive" a then Some CbPassive
+           else option_map (fun k => CbCancelAt (Z.to_nat k)) (Z_of_dec a)
+  | _ => None end.
+
+Definition getRtorrent (s : sexp) : option rtorrent :=
+  match s with
+  | L [n; fs; lo; hi] =>
+      match getZ n, getFiles fs, getZ lo, getZ hi with
+      | Some n, Some fs, Some lo, Some hi =>
+          Some {| t_name := n; t_files := fs; t_plen := None; t_pieces := None; t_pmin := lo; t_pmax := hi |}
+      | _, _, _, _ => None end
+  | _ => None end.
+
+Definition status_sexp (s : status) : sexp := match s with SFalse => Sy "false" | SNone => Sy "none" | STrue => Sy "true" end.
+
+Definition handle_reuse (op : list N) (args : list sexp) : option sexp :=
+  if atom_is "reuse.run" op then
+    match args with
+    | [d; cb; t; items] =>
+        match getDisk d, getCb cb, getRtorrent t, getList getItem items with
+        | Some d, Some cb, Some t, Some items =>
+            let '(r, t', log) := reuse (fun b => b) d cb t items in
+            Some (L [res_sexp BA r; FL (t_files t');
+                     match t_plen t' with Some l => ZA l | None => Sy "none" end;
+                     match t_pieces t' with Some hs => L (List.map HA hs) | None => Sy "none" end;
+                     L (List.map (fun c : call => L [ZA (Z.of_nat (fst (fst c))); status_sexp (snd (fst c)); BA (snd c)]) log)])
+        | _, _, _, _ => None end
+    | _ => None end
+  else if atom_is "reuse.sample" op then
+    match args with
+    | [cfs; l; tfs] =>
+        match getFiles cfs, getZ l, getFiles tfs with
+        | Some cfs, Some l, Some tfs => Some (res_sexp ZL (do x <- collect_indexes cfs l tfs; Ok (sorted_set x)))
+        | _, _, _ => None end
+    | _ => None end
+  else None.
+
 Definition handle (req : sexp) : sexp :=
   match req with
   | L (A op :: args) =>
@@ -565,7 +625,11 @@ Definition handle (req : sexp) : sexp :=
                               | None =>
                                   match handle_tree op args with
                                   | Some r => r
-                                  | None => bad_request
+                                  | None =>
+                                      match handle_reuse op args with
+                                      | Some r => r
+                                      | None => bad_request
+                                      end
                                   end
                               end
                           end
